@@ -164,7 +164,7 @@ class LazyUniform(object):
             if tag == "find_next_active_node":
                 Q = ctx.Q
                 # dead-choice elimination: nothing can happen any more, the pick is irrelevant
-                if Q is not None and all(nd.next_event_date == INF for nd in Q.active_nodes):
+                if Q is not None and all(nd.next_event_date == INF for nd in Q.nodes[:-1]):
                     return lo_cell + 0.5
             if tag in _TIE_TAGS:
                 ctx.ties += 1
